@@ -24,10 +24,14 @@ UNITS = {
 
 # --------------------------------------------------------------------------------------------- properties
 PROPS = {
-    "C01": dict(units=["comm"], kani=[], level="proof"),
-    "C02": dict(units=["comm"], kani=[], level="proof"),
-    "C03": dict(units=["comm"], kani=[], level="proof"),
-    "C04": dict(units=["comm"], kani=[], level="proof"),
+    "C01": dict(units=["comm"], kani=["w_poll_passthrough"], level="proof",
+                bounded_scenarios=[("c02_exchange_model", "60 exchanges through the real crate: 5 child behaviours (cat, dd bs=1000, dd bs=70000, tee to stderr, slow reader) x 8 input sizes (0 .. 300000), 18 size-limit runs (6 limits x 3 sizes, two streams), one resumed time-limited exchange; a watchdog turns a hang into a failure")]),
+    "C02": dict(units=["comm"], kani=[], level="proof",
+                bounded_scenarios=[("c02_exchange_model", "60 exchanges through the real crate: 5 child behaviours (cat, dd bs=1000, dd bs=70000, tee to stderr, slow reader) x 8 input sizes (0 .. 300000), 18 size-limit runs (6 limits x 3 sizes, two streams), one resumed time-limited exchange; a watchdog turns a hang into a failure")]),
+    "C03": dict(units=["comm"], kani=[], level="proof",
+                bounded_scenarios=[("c02_exchange_model", "60 exchanges through the real crate: 5 child behaviours (cat, dd bs=1000, dd bs=70000, tee to stderr, slow reader) x 8 input sizes (0 .. 300000), 18 size-limit runs (6 limits x 3 sizes, two streams), one resumed time-limited exchange; a watchdog turns a hang into a failure")]),
+    "C04": dict(units=["comm"], kani=["w_poll_passthrough"], level="proof",
+                bounded_scenarios=[("c02_exchange_model", "60 exchanges through the real crate: 5 child behaviours (cat, dd bs=1000, dd bs=70000, tee to stderr, slow reader) x 8 input sizes (0 .. 300000), 18 size-limit runs (6 limits x 3 sizes, two streams), one resumed time-limited exchange; a watchdog turns a hang into a failure")]),
     "C05": dict(units=["spawn"], kani=["w_make_standard_stream", "w_dup2", "w_pipe", "w_set_inheritable"], level="proof"),
     "C06": dict(units=["spawn", "exec", "builder"], kani=["w_fork_ids", "w_os_to_cstring_b4"], level="proof",
                 natives=[("units/native/format_env.nt.rs", "9331 environment lists: all lists of 0..5 entries over the names {A,B,CC} and the values {empty, x}"),
